@@ -21,7 +21,6 @@ import (
 	"go/types"
 	"strings"
 
-	"golang.org/x/tools/go/ssa"
 )
 
 type branchDriver struct {
@@ -456,61 +455,4 @@ func (r *rwRT) ruleSig() {
 				"a function containing a Yield is recorded as generator although its signature is wrong ("+tc.name+"): it would be rewritten instead of rejected")
 		}
 	}
-}
-
-// isSignatureCheck: the callee (a closure of collectYieldFunc) asserts on
-// Results().Len() and on isIterator of the result type.
-func (r *rwRT) isSignatureCheck(call *ssa.Call) bool {
-	var target *ssa.Function
-	switch v := call.Call.Value.(type) {
-	case *ssa.MakeClosure:
-		target = v.Fn.(*ssa.Function)
-	case *ssa.Function:
-		target = v
-	case *ssa.UnOp:
-		// loaded from a cell: find the single store of a closure
-		if al, ok := v.X.(*ssa.Alloc); ok {
-			for _, ref := range *al.Referrers() {
-				if st, ok := ref.(*ssa.Store); ok {
-					if mc, ok := st.Val.(*ssa.MakeClosure); ok {
-						target = mc.Fn.(*ssa.Function)
-					}
-				}
-			}
-		}
-		if fv, ok := v.X.(*ssa.FreeVar); ok {
-			if org := originOfFreeVar(fv); org != nil {
-				if al, ok := org.(*ssa.Alloc); ok {
-					for _, ref := range *al.Referrers() {
-						if st, ok := ref.(*ssa.Store); ok {
-							if mc, ok := st.Val.(*ssa.MakeClosure); ok {
-								target = mc.Fn.(*ssa.Function)
-							}
-						}
-					}
-				}
-			}
-		}
-	}
-	if target == nil {
-		return false
-	}
-	asserts, lenCheck, iterCheck := 0, false, false
-	for _, b := range target.Blocks {
-		for _, ins := range b.Instrs {
-			if cl, ok := ins.(*ssa.Call); ok {
-				if callee := cl.Call.StaticCallee(); callee != nil {
-					switch callee.Name() {
-					case "assert":
-						asserts++
-					case "isIterator":
-						iterCheck = true
-					case "Len":
-						lenCheck = true
-					}
-				}
-			}
-		}
-	}
-	return asserts >= 2 && lenCheck && iterCheck
 }
